@@ -268,7 +268,7 @@ def C10_for {K P : Type} [DecidableEq K] (c : Cfg K P) : Prop :=
     WF c self (run c self ops).tab ∧ ∀ r ∈ routes (run c self ops).tab, self ∉ r.path
 
 def C10_statement : Prop :=
-  C10_for cidrCfg ∧ C10_for MM.C09.domCfg ∧ C10_for MM.C09.fwdCfg ∧ C10_for MM.C09.agCfg
+  C10_for cidrCfg ∧ (∀ S, C10_for (MM.C09.domCfg S)) ∧ C10_for MM.C09.fwdCfg ∧ C10_for MM.C09.agCfg
 
 private theorem C10_for_any {K P : Type} [DecidableEq K] (c : Cfg K P) : C10_for c :=
   fun self ops => ⟨WF_run c self ops, C10_no_self_path c self ops⟩
@@ -277,7 +277,7 @@ private theorem C10_for_any {K P : Type} [DecidableEq K] (c : Cfg K P) : C10_for
     `C10_add_outcome`, `C10_replace_rule`, `C10_remove_outcome` apply at every step, and
     `C10_disconnect_exact`, `C10_cleanup_exact` hold unconditionally. -/
 theorem C10_holds : C10_statement :=
-  ⟨C10_for_any cidrCfg, C10_for_any MM.C09.domCfg, C10_for_any MM.C09.fwdCfg, C10_for_any MM.C09.agCfg⟩
+  ⟨C10_for_any cidrCfg, fun S => C10_for_any (MM.C09.domCfg S), C10_for_any MM.C09.fwdCfg, C10_for_any MM.C09.agCfg⟩
 
 /-! ### the Manager wrappers (CIDR part) -/
 
